@@ -111,10 +111,18 @@ func NewPMT(pmtBytes []byte) (PMT, error) {
 }
 
 func (p *pmt) parseTables(pmtBytes []byte) error {
-	sectionBytes := pmtBytes[1+PointerField(pmtBytes):]
+	start := 1 + int(PointerField(pmtBytes))
+	if len(pmtBytes) < start {
+		return gots.ErrPMTParse
+	}
+	sectionBytes := pmtBytes[start:]
 
 	for len(sectionBytes) > 2 && sectionBytes[0] != 0xFF {
 		tableLength := sectionLength(sectionBytes)
+		if len(sectionBytes) < 3+int(tableLength) {
+			// the section announces more bytes than there are
+			return gots.ErrPMTParse
+		}
 
 		if tableID(sectionBytes) == 0x2 {
 			err := p.parsePMTSection(sectionBytes[0 : 3+tableLength])
@@ -148,6 +156,9 @@ func (p *pmt) parsePMTSection(pmtBytes []byte) error {
 
 	// start at the stream descriptors, parse until the CRC
 	for offset := programInfoLengthOffset + 2 + programInfoLength; offset < PSIHeaderLen+sectionLength-pmtEsDescriptorStaticLen-CrcLen; {
+		if int(offset+pmtEsDescriptorStaticLen) > len(pmtBytes) {
+			return gots.ErrPMTParse
+		}
 		elementaryStreamType := uint8(pmtBytes[offset])
 		elementaryPid := int(pmtBytes[offset+1]&0x1f)<<8 | int(pmtBytes[offset+2])
 		pids = append(pids, elementaryPid)
@@ -159,6 +170,9 @@ func (p *pmt) parsePMTSection(pmtBytes []byte) error {
 		if infoLength != 0 && int(infoLength+offset) < len(pmtBytes) {
 			var descriptorOffset uint16
 			for descriptorOffset < infoLength {
+				if int(offset+descriptorOffset)+1 >= len(pmtBytes) {
+					return gots.ErrParsePMTDescriptor
+				}
 				tag := uint8(pmtBytes[offset+descriptorOffset])
 				descriptorOffset++
 				descriptorLength := uint16(pmtBytes[offset+descriptorOffset])
